@@ -312,3 +312,38 @@ Proof.
   - destruct (a =? x); [reflexivity|]. destruct (index_of a t); reflexivity.
   - destruct (a =? x); [reflexivity|]. rewrite IH. destruct (index_of a t); reflexivity.
 Qed.
+
+(* the per-axis distance used on a torus is the quotient metric: the shortest |a - b + k*size| over all
+   whole numbers of turns k, attained for k in {-1, 0, 1} *)
+Lemma axis_dist_shortest size a b k :
+  0 < size -> Z.abs (a - b) <= size -> axis_dist true size a b <= Z.abs (a - b + k * size).
+Proof.
+  intros Hs Hd. unfold axis_dist.
+  destruct (Z.eq_dec k 0) as [->|Hk]; [rewrite Z.mul_0_l, Z.add_0_r; lia|].
+  assert (size <= Z.abs (k * size)) as Hks.
+  { rewrite Z.abs_mul, (Z.abs_eq size) by lia.
+    assert (1 <= Z.abs k) by lia. nia. }
+  lia.
+Qed.
+
+Lemma axis_dist_attained size a b :
+  0 < size -> Z.abs (a - b) <= size ->
+  exists k, (k = -1 \/ k = 0 \/ k = 1) /\ axis_dist true size a b = Z.abs (a - b + k * size).
+Proof.
+  intros Hs Hd. unfold axis_dist.
+  destruct (Z_le_gt_dec (Z.abs (a - b)) (size - Z.abs (a - b))) as [H|H].
+  - exists 0. split; [auto|]. lia.
+  - destruct (Z_le_gt_dec 0 (a - b)) as [H2|H2].
+    + exists (-1). split; [auto|]. lia.
+    + exists 1. split; [auto|]. lia.
+Qed.
+
+Lemma axis_dist_quotient size a b :
+  0 < size -> Z.abs (a - b) <= size ->
+  (forall k, axis_dist true size a b <= Z.abs (a - b + k * size)) /\
+  (exists k, (k = -1 \/ k = 0 \/ k = 1) /\ axis_dist true size a b = Z.abs (a - b + k * size)).
+Proof. intros H1 H2. split; [intros k; apply axis_dist_shortest; assumption|apply axis_dist_attained; assumption]. Qed.
+
+Lemma wrap_in_bounds bs p :
+  bounds_ok bs = true -> oob_half bs (wrap bs p) = false /\ in_closed bs (wrap bs p) = true.
+Proof. intros H. split; [apply wrap_in_half|apply wrap_in_closed]; exact H. Qed.
